@@ -430,6 +430,8 @@ def _families(col, crate, adt, targets, sfx, modes=None, assign_of=None, A=None)
     for st in I.all_end_states():
         for e in st.event_list():
             if e.kind == "call" and (e.fn.get("resolved") or e.fn).get("def") != mulas.key and not e.extra.get("pure"):
+                if util.is_readonly_check(crate, crate.by_key.get((e.fn.get("resolved") or e.fn).get("def"))):
+                    continue   # assertions about the operands: cannot change a value
                 bad.append(e.callee)
     rets = [util.ret_term(st) for st in I.final_states]
     if not bad and rets:
@@ -558,18 +560,15 @@ def _families(col, crate, adt, targets, sfx, modes=None, assign_of=None, A=None)
             else:
                 col.violation("M2" + sfx, key, b.loc(), "%s must print exactly the canonical representative self.v as u32" % b.path)
                 col.obligation(False)
-    der = {}
-    for imp in crate.impls:
-        if imp.get("self_adt") == adt["key"]:
-            tr = (imp.get("trait") or "").split("::")[-1]
-            if tr in ("PartialEq", "Eq"):
-                der[tr] = imp.get("derived")
-    for tr in ("PartialEq", "Eq"):
-        if der.get(tr):
-            col.ok("M2" + sfx, "%s:%d" % (adt["span"]["file"], adt["span"]["line"]), "Modular|%s-derived" % tr, "derived on v", nontrivial=False)
+    # equality is structural on the canonical representative: derived, or hand-written and verified field by field
+    eq_ok, eq_why = util.structural_eq(crate, adt)
+    has_eq = any(i.get("self_adt") == adt["key"] and str(i.get("trait") or "").endswith("cmp::Eq") for i in crate.impls)
+    for tr, good, why_ in (("PartialEq", eq_ok, eq_why), ("Eq", eq_ok and has_eq, eq_why if has_eq else "no Eq impl")):
+        if good:
+            col.ok("M2" + sfx, "%s:%d" % (adt["span"]["file"], adt["span"]["line"]), "Modular|%s-derived" % tr, "structural on v (%s)" % why_, nontrivial=False)
             col.obligation(True)
         else:
-            col.violation("M2" + sfx, "Modular|%s-derived" % tr, "%s:%d" % (adt["span"]["file"], adt["span"]["line"]), "%s for Modular must be the derived structural one (on the canonical representative)" % tr)
+            col.violation("M2" + sfx, "Modular|%s-derived" % tr, "%s:%d" % (adt["span"]["file"], adt["span"]["line"]), "%s for Modular must be the structural one on the canonical representative (derived, or field by field): %s" % (tr, why_))
             col.obligation(False)
 
 
@@ -655,11 +654,38 @@ def _pow_semantic(crate, powb):
         if not (pa == (A_, A_) or (last and pa == "same")):
             return False
     # continues while d != 0 and returns the accumulator
+    def is_zero_fact(st, term):
+        return any(f[0] == "eq" and isinstance(f[1], tuple) and f[1] and f[1][0] == "bin" and f[1][2] == term and f[1][3] == mk_int(0) and ((f[1][1] == "Ne" and f[2] == 0) or (f[1][1] == "Eq" and f[2] == 1)) for f in st.facts)
+
+    def odd_of(st):
+        odd = None
+        for f in st.facts:
+            t = f[1]
+            if f[0] == "eq" and isinstance(t, tuple) and t and t[0] == "bin" and t[2] in (("bin", "Rem", ph(d_l), mk_int(2)), ("bin", "BitAnd", ph(d_l), mk_int(1))):
+                if t[1] == "Eq" and t[3] == mk_int(1):
+                    odd = bool(f[2])
+                elif t[1] in ("Ne", "Eq") and t[3] == mk_int(0):
+                    odd = (t[1] == "Ne") == bool(f[2])
+        return odd
+
     for st in I.final_states:
         r = util.ret_term(st)
-        if strip_mem(r) != strip_mem(ph(res_l)):
+        if not any(e.kind == "loop" for e in st.event_list()):
+            continue   # a return in front of the loop: judged by _pow_fast_paths
+        if strip_mem(r) == strip_mem(ph(res_l)) and is_zero_fact(st, ph(d_l)):
+            continue   # `while d != 0` left at its head
+        # left from the middle of a round (`loop { if odd { res *= a } d >>= 1; if d == 0 { break } a *= a }`): the round's
+        # multiplication has happened, the halved exponent is zero, the squaring that nobody would use is skipped
+        dnew = st.env.get(d_l)
+        odd = odd_of(st)
+        if odd is None or dnew not in (("bin", "Div", ph(d_l), mk_int(2)), ("bin", "Shr", ph(d_l), mk_int(1))) or not is_zero_fact(st, dnew):
             return False
-        if not any(f[0] == "eq" and isinstance(f[1], tuple) and f[1] and f[1][0] == "bin" and f[1][2] == ph(d_l) and f[1][3] == mk_int(0) and ((f[1][1] == "Ne" and f[2] == 0) or (f[1][1] == "Eq" and f[2] == 1)) for f in st.facts):
+        pr = product(st, res_l)
+        if odd and not (isinstance(pr, tuple) and set(pr) == {R_, A_}):
+            return False
+        if not odd and pr != "same":
+            return False
+        if strip_mem(r) != strip_mem(st.env.get(res_l)) and not (isinstance(st.env.get(res_l), tuple) and st.env.get(res_l)[0] == "out"):
             return False
     return True
 
